@@ -340,14 +340,14 @@ func DemuxOpt(b []byte, o Options) (*Result, error) {
 
 	// elementary streams
 	type open struct {
-		raw      []byte
-		idx      []int
-		first    int
-		n        int
-		stuffed  int
-		af       int
-		rai      bool
-		pcr      *PCR
+		raw     []byte
+		idx     []int
+		first   int
+		n       int
+		stuffed int
+		af      int
+		rai     bool
+		pcr     *PCR
 	}
 	cur := map[uint16]*open{}
 	finish := func(pid uint16, op *open, tail bool) error {
